@@ -241,7 +241,29 @@ def parse_not_serialised(mm):
 
 
 def judge_C01(mm):
-    return parse_not_serialised(mm)
+    """C01: the Origin value is treated as allowed iff some listed pattern denotes it. 'denoted' is the model's decision
+    (parse + tree = union of denotations, C01_tree); the treatment is read off an actual (non-preflight) response."""
+    if mm['case'].startswith('parse\t'):
+        return parse_not_serialised(mm)
+    if not mm['case'].startswith('serve\t'):
+        return None
+    sc, r, bits, cfg = _ctx(mm)
+    if r is None or cfg is None or runner.is_preflight(sc):
+        return None
+    origin_vals = sc['req'].get(runner.H_ORIGIN)
+    if not origin_vals or runner.hx('*') in (cfg[0].split(',') if cfg[0] != '~' else []):
+        return None
+    mparts = runner.split_resp(mm['model'])
+    mbits = mparts[2] if len(mparts) > 2 else None
+    if not mbits or len(mbits) < 2:
+        return None
+    denoted = mbits[1] == '1'
+    treated = changed(sc, r, runner.H_ACAO) and r['hdrs'].get(runner.H_ACAO) == origin_vals[:1]
+    if denoted and not treated and r['next'] == '1':
+        return 'the Origin value %r is denoted by a listed pattern, yet the actual request gets no Access-Control-Allow-Origin for it' % bytes.fromhex(origin_vals[0] if origin_vals[0] != '-' else '')
+    if treated and not denoted:
+        return 'the Origin value %r is denoted by no listed pattern, yet it is echoed in Access-Control-Allow-Origin' % bytes.fromhex(origin_vals[0] if origin_vals[0] != '-' else '')
+    return None
 
 
 def judge_C13(mm):
